@@ -30,8 +30,8 @@ Proof.
 Qed.
 
 (* the quantities of the sunrise equation as the code computes them (decimal literals as written) *)
-Definition rs_jstar (j0 ls lo : R) : R :=
-  j0 - 24515450/10 + (100/10 + 32184/1000 + ls) / (864000/10) - lo / (3600/10).
+Definition rs_jstar (j0 : R) (ls : Z) (lo : R) : R :=
+  j0 - 24515450/10 + (100/10 + 32184/1000 + IZR ls) / (864000/10) - lo / (3600/10).
 Definition rs_Marg (js : R) : R := 3575291/10000 + 98560028/100000000 * js.
 Definition rs_C (mr : R) : R :=
   19148/10000 * sin mr + 2/100 * sin (20/10 * mr) + 3/10000 * sin (30/10 * mr).
@@ -50,9 +50,10 @@ Ltac rs_eq := rs_unfold; expose_R; Rlit_norm; first [ reflexivity | lra | field 
 Ltac rise_hook2 s :=
   lazymatch s with
   | fmod_py Rops ?a ?b =>
+      change b with 360;
       match goal with
-      | Hm : fmod_py Rops ?a' ?b' = _ |- _ =>
-          replace a with a' by rs_eq; change b with b'; rewrite Hm
+      | Em : pymod ?a' 360 = _ |- _ =>
+          replace a with a' by rs_eq; rewrite (fmod_py_pos a' 360) by lra; rewrite Em
       end
   | Epoch___init__ Rops _ (VTuple [VFloat ?p]) _ =>
       match goal with
@@ -62,27 +63,35 @@ Ltac rise_hook2 s :=
   | _ => rise_hook s
   end.
 
-Lemma rise_set_closed_form j phi lo h y mo d j0 ls m lam :
+Lemma rise_set_closed_form j phi lo h y mo d j0 ls :
   -360 < phi < 360 -> - (6655 / 100) <= phi <= 6655 / 100 -> 0 <= h ->
   Epoch_get_date Rops (epo j) (VDict []) = VTuple [VInt y; VInt mo; VFloat d] ->
   Epoch___init__ Rops (VObj cEpoch [VNone]) (VTuple [VInt y; VInt mo; VFloat d]) (VDict []) = epo j0 ->
-  Epoch_leap_seconds Rops (VInt y) (VInt mo) = VFloat ls ->
+  Epoch_leap_seconds Rops (VInt y) (VInt mo) = VInt ls ->
   let js := rs_jstar j0 ls lo in
-  fmod_py Rops (rs_Marg js) 360 = VFloat m ->
+  let m := pymod (rs_Marg js) 360 in
   let mr := m * (PI / 180) in
-  fmod_py Rops (rs_Larg m mr) 360 = VFloat lam ->
+  let lam := pymod (rs_Larg m mr) 360 in
   let lr := lam * (PI / 180) in
   let sd := rs_sind lr in
   let c := rs_cosom h phi sd in
   let jt := rs_jtran js mr lr in
   let om := acos c * (180 / PI) in
-  -1 <= sd <= 1 -> 0 < cos (phi * (PI / 180)) * cos (asin sd) -> -1 <= c <= 1 ->
-  Epoch___init__ Rops (VObj cEpoch [VNone]) (VTuple [VFloat (jt - om / (3600/10))]) (VDict []) = epo (jt - om / (3600/10)) ->
-  Epoch___init__ Rops (VObj cEpoch [VNone]) (VTuple [VFloat (jt + om / (3600/10))]) (VDict []) = epo (jt + om / (3600/10)) ->
-  Epoch_rise_set Rops (epo j) (ang phi) (ang lo) (VFloat h)
-  = VTuple [epo (jt - om / (3600/10)); epo (jt + om / (3600/10))].
+  0 < cos (phi * (PI / 180)) * cos (asin sd) -> -1 <= c <= 1 ->
+  forall r1 r2,
+  Epoch___init__ Rops (VObj cEpoch [VNone]) (VTuple [VFloat (jt - om / (3600/10))]) (VDict []) = epo r1 ->
+  Epoch___init__ Rops (VObj cEpoch [VNone]) (VTuple [VFloat (jt + om / (3600/10))]) (VDict []) = epo r2 ->
+  Epoch_rise_set Rops (epo j) (ang phi) (ang lo) (VFloat h) = VTuple [epo r1; epo r2].
 Proof.
-  intros Hphi Hlim Hh Hdate Hctor Hleap js Hm mr Hl lr sd c jt om Hsd Hpos Hc Hr Hs.
+  intros Hphi Hlim Hh Hdate Hctor Hleap js m mr lam lr sd c jt om Hpos Hc r1 r2 Hr Hs.
+  assert (Hsd : -1 <= sd <= 1).
+  { unfold sd, rs_sind. pose proof (SIN_bound lr) as [A1 A2].
+    pose proof (SIN_bound (2344/100 * (PI / 180))) as [B1 B2].
+    set (u := sin lr) in *. set (v := sin (2344/100 * (PI / 180))) in *. split; nra. }
+  set (Mv := m) in *. set (Lv := lam) in *.
+  assert (Em : pymod (rs_Marg js) 360 = Mv) by reflexivity.
+  assert (El : pymod (rs_Larg Mv (Mv * (PI / 180))) 360 = Lv) by reflexivity.
+  clearbody Mv Lv.
   subst js mr lr sd c jt om. rs_unfold. unfold epo, ang, tol0 in *.
   Ltac py_stuck_hook s ::= rise_hook2 s.
   pyrun2. reflexivity.
